@@ -480,6 +480,14 @@ def _core_order_and_controls():
     t = _base_tree()
     t.suites['d2/exactly.suite']['items'] += [['cases', '../sub/x.case'], ['cases', '../sub/e/z.case']]
     yield t.descriptor('core-control', label='case-listed-in-two-suites')
+    # --- cases that lie outside the directory tree of the root suite (listed through `..`), every verdict class -------
+    for j, cls in enumerate(ALL_CLASSES):
+        t = Tree()
+        t.case('shared/o.case', cls, 0)
+        t.case('proj/p.case')
+        t.suite('proj/root.suite', [['cases', 'p.case'], ['cases', '../shared/o.case']])
+        yield t.descriptor('core-verdict', root='proj/root.suite', cwd=('', 'proj')[j % 2],
+                           label='%s/0/outside-the-tree-of-the-root-suite' % cls)
     # --- quoted entries: a quoted token is a plain file name, also when it holds pattern characters or spaces -------
     t = Tree()
     t.case('what?.case', 'FAIL')
